@@ -107,11 +107,9 @@ impl Memory {
     ) {
         let offset = offset.constant_fold();
         let store_value = MemStore { data: value, size };
-        let entry = match offset.data() {
-            RSVD::KnownData { value } => {
-                self.constant_offsets.entry(value.into()).or_insert(vec![])
-            }
-            _ => self.symbolic_offsets.entry(offset).or_insert(vec![]),
+        let entry = match Self::constant_offset(&offset) {
+            Some(constant) => self.constant_offsets.entry(constant).or_insert(vec![]),
+            None => self.symbolic_offsets.entry(offset).or_insert(vec![]),
         };
 
         entry.push(store_value);
@@ -130,11 +128,9 @@ impl Memory {
     #[must_use]
     pub fn load(&mut self, offset: &RuntimeBoxedVal) -> RuntimeBoxedVal {
         let offset = offset.constant_fold();
-        match offset.data() {
-            RSVD::KnownData { value } => {
-                Self::get_or_initialize(&mut self.constant_offsets, &value.into()).clone()
-            }
-            _ => Self::get_or_initialize(&mut self.symbolic_offsets, &offset).clone(),
+        match Self::constant_offset(&offset) {
+            Some(constant) => Self::get_or_initialize(&mut self.constant_offsets, &constant).clone(),
+            None => Self::get_or_initialize(&mut self.symbolic_offsets, &offset).clone(),
         }
     }
 
@@ -159,10 +155,10 @@ impl Memory {
         instruction_pointer: u32,
     ) -> RuntimeBoxedVal {
         let offset = offset.constant_fold();
-        match offset.data() {
-            RSVD::KnownData { value } => match Self::decompose_size(size) {
+        match Self::constant_offset(&offset) {
+            Some(offset_value) => match Self::decompose_size(size) {
                 Some(size) => {
-                    let offset: usize = value.into();
+                    let offset: usize = offset_value;
                     let mut values = vec![];
                     let bounded_size = size.min(self.max_single_operation_bytes);
 
@@ -184,14 +180,30 @@ impl Memory {
                 None => {
                     // If there is no concrete size, we do our best and just return the direct value
                     // at `offset`.
-                    Self::get_or_initialize(&mut self.constant_offsets, &value.into()).clone()
+                    Self::get_or_initialize(&mut self.constant_offsets, &offset_value).clone()
                 }
             },
-            _ => {
+            None => {
                 // Here we just do our best and return the single value as we don't track
                 // adjacency between symbolic values yet.
                 Self::get_or_initialize(&mut self.symbolic_offsets, &offset).clone()
             }
+        }
+    }
+
+    /// Gets the offset as a constant if it is a known word that fits into the
+    /// offsets that the memory can track. A larger word is not the offset
+    /// given by its low bits, so it is treated like any other offset that is
+    /// not known concretely.
+    #[must_use]
+    fn constant_offset(offset: &RuntimeBoxedVal) -> Option<usize> {
+        match offset.data() {
+            RSVD::KnownData { value }
+                if value.value_le() <= ethnum::U256::from(usize::MAX as u128) =>
+            {
+                Some(value.into())
+            }
+            _ => None,
         }
     }
 
